@@ -1,2 +1,4 @@
-#[cfg(any(not(verif_select), verif_gj))] #[path = "/verif/harness/ntp_proto/gj_probe_nts.rs"] pub(crate) mod gj;
+#[cfg(any(not(verif_select), verif_gj))]
+#[path = "/verif/harness/ntp_proto/gj_probe_nts.rs"]
+pub(crate) mod gj;
 pub(crate) use super::messages::verif_probe as messages_probe; // nts::messages is private: crate::nts::verif_probe::messages_probe
